@@ -440,7 +440,7 @@ func TestC15(t *testing.T) {
 	pbt.Main(t, pbt.Prop[Case]{
 		ID: "C15", Name: "transport",
 		Rule: "rapid-generated histories (1..14 ops + a closing 5-byte message) on a TUDPTransport or a TMultiUDPTransport with 1..3 real loopback UDP sinks: Write/WriteString/WriteByte with sizes around the 65000-byte limit (64999, 65000, 65001, halves, 60000..66000) and small, Flush, Close, killing the socket behind the transport (single) or one destination of a multi transport going away (sends to it fail; the live destinations must keep receiving every later message complete, alone and byte-equal, and every message whose Flush returned nil), and the writer abandoning a message after an error. Reference model: buffer = concatenation of accepted writes since the last Flush; each successful Flush => exactly one byte-equal datagram at every sink; after any Flush a 65000-byte write fits again (buffer emptied whether or not the send succeeded); an over-long write is refused with an error and adds nothing; after Close every call fails with NOT_OPEN and Close is idempotent; no stray datagrams. A message abandoned after a refused write with bytes already buffered is the recorded stale-prefix finding: excluded only while listed open. Non-trivial: a fault (refused write, failed send) followed by a successful message. Distinct: FNV-64 of the case JSON.",
-		Gen:  gen, Run: run,
+		Gen:  gen, Run: run, HangAfter: 120 * time.Second,
 	})
 }
 
@@ -647,6 +647,6 @@ func TestReporter(t *testing.T) {
 	pbt.Main(t, pbt.Prop[RepCase]{
 		ID: "C15", Name: "reporter",
 		Rule: "reporter-level fault sequences: an M3 reporter (Compact/Binary) sends 0..3 flush groups of 1..6 uniquely valued metrics (counters or histogram buckets) to a loopback destination, the destination then disappears (its socket is closed, so sends fail with ECONNREFUSED) while 2..5 more groups are reported, then the destination comes back on the same port and 1..4 more groups are reported. Oracle: everything sent while the destination was up arrives exactly once; no value is ever delivered twice; no datagram mixes metrics of different flush groups (a message that failed to send must not leak into a later one); every datagram decodes and carries intact tags; the reporter keeps emitting after the faults (all later groups arrive, except that the first may be swallowed by a pending socket error). Non-trivial: >=2 groups after recovery.",
-		Gen:  genRep, Run: runRep,
+		Gen:  genRep, Run: runRep, HangAfter: 120 * time.Second,
 	})
 }
